@@ -418,7 +418,9 @@ func (m *Model) applyWrite(s State, op Op, got Result) (Verdict, State) {
 		if got.Code == codes.OK {
 			return Verdict{Clause: "accepted-invalid", Why: fmt.Sprintf("%v succeeded (returned %s) but the model says it must fail with one of %v", op, vk.JSON(got.Msg), fail)}, s
 		}
-		if !codeIn(got.Code, fail) {
+		if !codeIn(got.Code, fail) && !codeIn(got.Code, mayFail) {
+			// (a call with several reasons to fail may report any of them, e.g. id generation giving up before a
+			// precondition is looked at)
 			return Verdict{Clause: "error-class", Why: fmt.Sprintf("%v failed with %v (%s), model allows %v", op, got.Code, got.Err, fail)}, s
 		}
 		if got.Msg != nil && got.Msg.ProtoReflect().IsValid() {
